@@ -246,9 +246,10 @@ class RefSolver(object):
                                     d = self.domain(ty)
                                     I[n] = d[0] if d else 0
                         v = Evaluator(I, cards).eval(b)
-                        parts.append("(%s %s)" % (unparse(t), value_text(reftype(b), v)))
+                        # (--wrap: replies may span several lines, as z3 writes long values)
+                        parts.append(("(%s\n   %s)" if self.args.wrap else "(%s %s)") % (unparse(t), value_text(reftype(b), v)))
                         vals[unparse(t)] = v
-                    self.out("(%s)" % " ".join(parts), raw, {"values": vals})
+                    self.out("(%s)" % ("\n " if self.args.wrap else " ").join(parts), raw, {"values": vals})
                 elif name == "assert" and mode == "fail-on-assert":
                     self.out('(error "assert is broken in this solver")', raw)
                 else:
@@ -284,6 +285,7 @@ def main():
     ap.add_argument("--log", default=None)
     ap.add_argument("--card", type=int, default=2)
     ap.add_argument("--start-delay", type=int, default=0)
+    ap.add_argument("--wrap", action="store_true")
     args = ap.parse_args()
     if args.start_delay:
         time.sleep(args.start_delay / 1000.0)
